@@ -17,6 +17,31 @@ CHECKS = {
             "Same engine as C01 with different seeds: SolveFailure iff the enumerated reference solution set is empty; members pinned must be accepted, non-members rejected; any non-SolveFailure exception from inside the library on a valid program is a violation (bucketed by exception type and innermost library frame); wide programs are satisfiable by construction (anchored at a hidden assignment) or contradictory by construction.",
             "Satisfiability is exact only for programs whose random space is <= 2^13 assignments; wide programs rely on construction. Diagnostic flags at defaults.",
             "5/C02"),
+    "C10": ("exploration",
+            "Hypothesis-generated bin specifications, exhaustive value sweep per specification, differential against an independent bin-partition model",
+            "Generated coverpoint specifications (bin / bin_array with every count form, overlapping and unordered ranges, auto-bins, enum auto-bins, ignore/illegal bins, iff by field or callable) sampled with every value of the coverpoint's type; after every sample the per-bin increment vector (regular, ignore, illegal) must equal the reference membership vector.",
+            "Trusts the reference partition rule in pvs/model/cov.py (written from the property text); hit counts are read through the model getters the property names.",
+            "5/C10"),
+    "C11": ("exploration",
+            "Hypothesis-generated crosses over disjoint-bin coverpoints with gated sample sequences; reference = row-major product model",
+            "Generated covergroups with 2-3 coverpoints of pairwise disjoint bins (single, array, auto, gaps), a cross over 2-3 of them, iff on coverpoints and cross; bin count, names and order against the product of the coverpoints' bins; after every sample exactly the combination bin increments iff all gates hold and every coverpoint hit.",
+            "Coverpoint bins are disjoint by construction; cross names are compared against the coverpoints' own bin names.",
+            "5/C11"),
+    "C12": ("exploration",
+            "generated histories (create instance / sample) checked after every step against a dict-based model of instance and type coverage",
+            "A parameterised covergroup class yields several shapes; histories interleave instance creation and samples; after every operation each instance's own hits, the type hits (bin-wise sum over same-shape instances), get_inst_coverage/get_coverage (weighted share of bins at at_least), bounds and monotonicity are compared with the model.",
+            "Option inheritance (coverpoint inherits the covergroup's weight/at_least) follows the library's documented resolution.",
+            "5/C12"),
+    "C13": ("exploration",
+            "generated histories with report points; report model, parsed text report and UCIS XML read-back compared with an independent dict model and the API getters",
+            "Populations as in C12 plus ignore/illegal bins and optional instance names; at generated points the report model, the text report (parsed) and the written XML (re-read with PyUCIS) must list every type/instance/coverpoint/cross/bin once with the in-memory names and counts, percentages must equal the API's, and every getter must read the same before and after.",
+            "PyUCIS (third party) does the XML I/O and report arithmetic: after read-back only names and counts are compared.",
+            "5/C13"),
+    "C19": ("exploration",
+            "exhaustive (value, mask) sweep up to 8 bits + Hypothesis-generated pattern strings; oracle (v ^ value) & mask == 0 and the partition model",
+            "Every (value, mask) pair of w<=6 bits (8 in the thorough tier) as single wildcard bin and (w<=5/6) as wildcard array, sampled with every value; generated string patterns in three bases with x X ? _ anywhere, several patterns per bin, arrays with and without a count.",
+            "String patterns span the coverpoint width; (value, mask) arrays whose mask lacks the top bit are a recorded finding.",
+            "5/C19"),
     "C18": ("exploration",
             "exhaustive enumeration (widths<=10, all access paths, part-select bounds) + Hypothesis for widths 11..64 and enums, oracle = wrap(v,w,signed) on Python ints",
             "Every integer in [-2^(w+1), 2^(w+1)] for widths 1..10, both signednesses, through 9 write paths and every read path; every part-select read (w<=8) and write (w<=6); boundary-biased generated cases for widths 11..64; enum fields through every path.",
